@@ -1,7 +1,7 @@
 (* Model/EntryShell.v — S-expression glue for Model/Shell.v:
    (shell_run <kind> <handler> <nworkers> <started T/F> ((<thread> <action>) ...)) *)
 From Coq Require Import String List Ascii NArith ZArith Bool.
-From LS Require Import Model.Bytes Model.Sx Model.Tags Model.AriReply Model.EntryReply Model.Shell.
+From LS Require Import Model.Bytes Model.Sx Model.Tags Model.AriReply Model.EntryReply Model.Shell Model.ShellSpec.
 Import ListNotations.
 
 Definition un_thread (x : sx) : option thread :=
@@ -122,8 +122,6 @@ Definition sx_wpc (p : wpc) : sx :=
 Definition sx_wstate (w : wstate) : sx :=
   sym match w with KIdle => "Idle" | KBusy _ _ _ _ => "Busy" | KHandFal _ _ => "HandFal" | KExited => "Exited" end.
 
-Definition written_of (h : list sevent) : list oline :=
-  flat_map (fun e => match e with EWritten l => [l] | _ => [] end) h.
 Definition count_ev (f : sevent -> bool) (h : list sevent) : nat := length (filter f h).
 
 Definition sx_shell (s : shell) : sx :=
@@ -134,12 +132,21 @@ Definition sx_shell (s : shell) : sx :=
       sx_nat (count_ev (fun e => match e with EHand _ => true | _ => false end) (sh_hist s));
       sx_nat (count_ev (fun e => match e with EHandIO _ => true | _ => false end) (sh_hist s))].
 
-Fixpoint shell_run_idx (s : shell) (ls : list (thread * action)) (idx : nat) : sx :=
+Definition failed_names (l : list (string * bool)) : list sx :=
+  flat_map (fun nb : string * bool => if snd nb then @nil sx else [sym (fst nb)]) l.
+
+(* invariants are evaluated after every step, monitors on the final history *)
+Fixpoint shell_run_idx (s : shell) (ls : list (thread * action)) (idx : nat) (bad : list sx) : sx :=
   match ls with
-  | [] => app_ "ok" [sx_shell s]
+  | [] => app_ "ok" [sx_shell s; SL (bad ++ failed_names (monitors s))]
   | (th, a) :: r =>
       match step s th a with
-      | Some s' => shell_run_idx s' r (S idx)
+      | Some s' =>
+          let b := match failed_names (invariants s') with
+                   | [] => bad
+                   | f => match bad with [] => [SL (sx_nat idx :: f)] | _ => bad end
+                   end in
+          shell_run_idx s' r (S idx) b
       | None => app_ "rejected" [sx_nat idx; sx_shell s]
       end
   end.
@@ -151,10 +158,10 @@ Definition e_shell_run (args : list sx) : sx :=
       | Some k', Some h', Some n', Some st', Some ls' =>
           if st' then
             match started k' h' n' with
-            | Some s0 => shell_run_idx s0 ls' 0
+            | Some s0 => shell_run_idx s0 ls' 0 []
             | None => sx_err "shell_run: start failed"
             end
-          else shell_run_idx (shell_init k' h' n') ls' 0
+          else shell_run_idx (shell_init k' h' n') ls' 0 []
       | _, _, _, _, _ => sx_err "shell_run: bad args"
       end
   | _ => sx_err "shell_run: arity"
